@@ -100,7 +100,9 @@ def build(case):
         L = np.tile([3.0 * s, 4.0 * s, 5.0 * s], (nf, 1))
         A = np.tile([90.0, 90.0, 90.0], (nf, 1))
         # the skewed cells rotate through the sign patterns of the tilt factors: acute / obtuse in every combination
-        SK = [[70.0, 80.0, 100.0], [100.0, 105.0, 110.0], [60.0, 75.0, 80.0], [80.0, 110.0, 70.0], [109.4712, 109.4712, 109.4712], [75.0, 100.0, 115.0]]
+        SK = [[70.0, 80.0, 100.0], [100.0, 105.0, 110.0], [60.0, 75.0, 80.0], [80.0, 110.0, 70.0], [109.4712, 109.4712, 109.4712], [75.0, 100.0, 115.0],
+              # cells with two right angles: hexagonal prisms and the three monoclinic settings
+              [90.0, 90.0, 120.0], [90.0, 90.0, 60.0], [90.0, 100.0, 90.0], [80.0, 90.0, 90.0]]
         skew0 = SK[case["seed"] % len(SK)]
         if case["cell"] in ("tric", "vary-tric"):
             A = np.tile(skew0, (nf, 1))
@@ -233,13 +235,13 @@ def run_case(case):
                 viol.append(("%s/shape" % fmt, "loaded %s, saved %s" % (loaded.xyz.shape, tr.xyz.shape)))
             else:
                 err = float(np.abs(loaded.xyz.astype(np.float64) - tr.xyz.astype(np.float64)).max())
-                if err > ctol:
+                if not err <= ctol:         # (NaN counts as different)
                     viol.append(("%s/coordinates" % fmt, "max |loaded - saved| = %.3g nm, stated precision %.3g nm (|x|max %.4g nm)" % (err, ctol, xmax)))
                 if cap["time"]:
                     tt = np.asarray(tr.time, dtype=np.float64)
                     lt = np.asarray(loaded.time, dtype=np.float64)
                     ttol = 4e-7 * np.abs(tt).max() + (1e-3 if fmt in ("gro", "rst7") else 1e-6)
-                    if lt.shape != tt.shape or (np.abs(lt - tt) > ttol).any():
+                    if lt.shape != tt.shape or (~(np.abs(lt - tt) <= ttol)).any():
                         viol.append(("%s/time" % fmt, "loaded times %s, saved %s" % (lt[:6], tt[:6])))
                 if cap["cell"] and complete_cell:
                     if loaded.unitcell_lengths is None or loaded.unitcell_angles is None:
@@ -251,10 +253,10 @@ def run_case(case):
                         ltol = {"pdb": 0.5e-4, "pdb.gz": 0.5e-4, "mdcrd": 0.5e-4, "crd": 0.5e-4, "gro": 2e-5, "rst7": 1e-7, "lammpstrj": 1e-5}.get(fmt, 0.0) + 4e-6 * eL.max()
                         atol = {"pdb": 0.5e-2, "pdb.gz": 0.5e-2, "gro": 2e-3, "lammpstrj": 1e-3, "xtc": 1e-4, "trr": 1e-4, "dcd": 1e-4, "rst7": 1e-6}.get(fmt, 2e-5) + 1e-5
                         gL, gA = np.array(loaded.unitcell_lengths, dtype=np.float64), np.array(loaded.unitcell_angles, dtype=np.float64)
-                        if gL.shape != eL.shape or (np.abs(gL - eL) > ltol).any() or (np.abs(gA - eA) > atol).any():
+                        if gL.shape != eL.shape or (~(np.abs(gL - eL) <= ltol)).any() or (~(np.abs(gA - eA) <= atol)).any():
                             k = 0
                             if gL.shape == eL.shape:
-                                bad = ((np.abs(gL - eL) > ltol) | (np.abs(gA - eA) > atol)).any(axis=1)
+                                bad = (~(np.abs(gL - eL) <= ltol) | ~(np.abs(gA - eA) <= atol)).any(axis=1)
                                 k = int(np.argmax(bad))
                             viol.append(("%s/cell" % fmt, "frame %d: loaded cell %s %s, saved %s %s" % (k, gL[min(k, len(gL) - 1)], gA[min(k, len(gA) - 1)], eL[k], eA[k])))
                 elif cap["cell"] and not complete_cell and loaded.unitcell_lengths is not None and fmt not in ("dtr",):
@@ -302,7 +304,7 @@ def _independent(case, tr, paths, viol, ctol, kw):
             if na > 9 and fr.get("precision") != 1000.0:
                 viol.append((tag + "/precision", "frame %d precision field %r" % (f, fr.get("precision"))))
                 return
-            if na <= 9 and np.abs(fr["xyz"] - want_x[f]).max() > ctol:
+            if na <= 9 and not np.abs(fr["xyz"] - want_x[f]).max() <= ctol:
                 viol.append((tag + "/coordinates", "raw floats in the file differ from the coordinates in nm by %.3g" % np.abs(fr["xyz"] - want_x[f]).max()))
                 return
             if has_cell and (fr["cell"] is None or np.abs(np.array(fr["cell"]) - want_c[f]).max() > 1e-4 + 1e-5 * want_c[f].max()):
@@ -348,13 +350,13 @@ def _independent(case, tr, paths, viol, ctol, kw):
         viol.append((tag + "/shape", "independent reader finds %s, saved %s" % (x.shape, want_x.shape)))
         return
     err = float(np.abs(x - want_x).max())
-    if err > ctol * scale:
+    if not err <= ctol * scale:
         viol.append((tag + "/coordinates", "numbers in the file (%s) differ from the coordinates by %.3g (stated precision %.3g)" % (
             "Angstrom" if scale == 10 else "nm", err, ctol * scale)))
     if cap["time"] and r.get("time") is not None and base != "gro" or (base == "gro" and all(v is not None for v in r["time"])):
         t = np.asarray(r["time"], dtype=np.float64)
         ttol = 4e-7 * np.abs(want_t).max() + (1e-3 if base in ("gro", "rst7") else 1e-6)
-        if t.shape != want_t.shape or (np.abs(t - want_t) > ttol).any():
+        if t.shape != want_t.shape or (~(np.abs(t - want_t) <= ttol)).any():
             viol.append((tag + "/time", "times in the file %s, saved %s ps" % (t[:6], want_t[:6])))
     if cap["cell"] and has_cell:
         if r["cell"] is None or any(c is None for c in r["cell"]):
@@ -366,7 +368,7 @@ def _independent(case, tr, paths, viol, ctol, kw):
                 w = w.copy()
             ltol = {"pdb": 0.5e-3, "mdcrd": 0.5e-3, "gro": 2e-5, "lammpstrj": 1e-4, "rst7": 1e-6}.get(base, 0.0) + 4e-6 * w[:, :3].max()
             atol = {"pdb": 0.5e-2, "gro": 2e-3, "lammpstrj": 1e-3, "trr": 1e-4, "dcd": 1e-4, "rst7": 1e-6}.get(base, 2e-5) + 1e-5
-            if c.shape != w.shape or (np.abs(c[:, :3] - w[:, :3]) > ltol).any() or (np.abs(c[:, 3:] - w[:, 3:]) > atol).any():
+            if c.shape != w.shape or (~(np.abs(c[:, :3] - w[:, :3]) <= ltol)).any() or (~(np.abs(c[:, 3:] - w[:, 3:]) <= atol)).any():
                 viol.append((tag + "/cell", "cell in the file %s, saved %s (native units)" % (np.round(c[0], 5), np.round(w[0], 5))))
 
 
